@@ -24,6 +24,7 @@ Every observable is modelled twice:
 -/
 import QV.Model.CplxScalar
 import QV.Model.Hilbert
+import QV.Model.PyFlag
 namespace QV
 
 variable {α : Type} [Add α] [Mul α] [Neg α] [Sub α] [Div α] [Zero α] [One α] [Transc α]
@@ -233,6 +234,29 @@ def swapRun (S : ImpState α n) (A : Fin n → Bool) (h : THeap n) (sid : Nat) :
   let w1 := List.zipWith S.weight (hs.cells hc1.2) (hs.cells s1)
   let w2 := List.zipWith S.weight (hs.cells hc2.2) (hs.cells s2)
   (hs, (List.zipWith C.mul w1 w2).map (fun w => w.1))
+
+/-! ### constructor flags as the OBJECTS the caller passed (hardening round 4)
+
+`SigmaX/Y/Z(absolute=…)` and `NeighbourInteraction(periodic_bcs=…, c)` store the argument as it is (`self.absolute = absolute`,
+pauli.py:48/98/151; `self.periodic_bcs = periodic_bcs`, interactions.py:34) and `apply` tests the stored object with
+`if self.absolute:` (pauli.py:80/133/168) / `if self.periodic_bcs:` (interactions.py:55) — Python truthiness; the attribute may
+also be reassigned between calls. -/
+
+/-- `SigmaX(absolute=flag).apply(nn_state, samples)` -/
+def sigmaXRunF (S : ImpState α n) (absolute : PyFlag) (h : THeap n) (sid : Nat) : THeap n × List α :=
+  sigmaXRun S absolute.truthy h sid
+
+/-- `SigmaY(absolute=flag).apply(nn_state, samples)` -/
+def sigmaYRunF (S : ImpState α n) (absolute : PyFlag) (h : THeap n) (sid : Nat) : THeap n × List α :=
+  sigmaYRun S absolute.truthy h sid
+
+/-- `SigmaZ(absolute=flag).apply` for one sample -/
+def sigmaZApplyF (absolute : PyFlag) (σ : Cfg n) : α := sigmaZApply absolute.truthy σ
+
+/-- `NeighbourInteraction(periodic_bcs=flag, c).apply` for one sample: `if self.periodic_bcs:` chooses the rolled product,
+else the two slices -/
+def neighbourApplyF (periodic : PyFlag) (c : Nat) (σ : Cfg n) : Except PyErr α :=
+  if periodic.truthy then .ok (neighbourPeriodicApply c σ) else neighbourOpenApply c σ
 
 end runs
 end QV
